@@ -2,7 +2,7 @@ SPECIFICATION Spec
 CONSTANTS
   Alphabet = {"a", "1", "/"}
   MaxLen = 5
-  QAlphabet = {"x", "%", "4", "1", "2", "F", "G"}
+  QAlphabet = {"x", "%", "4", "1", "2", "F", "G", "A", "5"}
   QMaxLen = 4
 INVARIANTS Sane EmitCase
 CHECK_DEADLOCK FALSE
